@@ -660,6 +660,234 @@ pub fn grids(tier: Tier) -> Vec<(Grid, usize, bool)> {
     }
 }
 
+// ------------------------------------------------------------------ the library's own render loop
+
+/// what the scripted terminal hands to the loop's next poll
+#[derive(Debug, Clone, Copy, PartialEq, Eq, Hash)]
+pub enum LoopEvent {
+    Timeout,
+    Wake,
+    /// window-size change (to the same size: the loop re-creates its renderer all the same)
+    Resize,
+    /// no event, but more than 32 frames are pending in the output queue (the loop drops them and clears)
+    Behind,
+}
+
+#[derive(Debug, Clone, Copy, PartialEq, Eq, Hash)]
+pub enum LoopAction {
+    Wait,
+    WaitNoFrame,
+    Sleep0,
+}
+
+const LOOP_EVENTS: [LoopEvent; 4] = [LoopEvent::Timeout, LoopEvent::Wake, LoopEvent::Resize, LoopEvent::Behind];
+const LOOP_ACTIONS: [LoopAction; 3] = [LoopAction::Wait, LoopAction::WaitNoFrame, LoopAction::Sleep0];
+
+/// One handler call of a program run through `Terminal::run_render`: the surface drawn, the action returned, and the
+/// event that wakes the loop up afterwards (ignored for the last call, which returns Quit).
+#[derive(Debug, Clone, Copy, PartialEq, Eq, Hash)]
+pub struct LoopStep {
+    pub surf: u32,
+    pub action: LoopAction,
+    pub then: LoopEvent,
+}
+
+/// terminal for `run_render`: executes every command on the reference screen at once, polls from a script
+struct LoopTerm {
+    size: TerminalSize,
+    caps: TerminalCaps,
+    screen: Screen,
+    script: std::collections::VecDeque<LoopEvent>,
+    pending: usize,
+    polls: usize,
+}
+
+impl Write for LoopTerm {
+    fn write(&mut self, buf: &[u8]) -> std::io::Result<usize> {
+        Ok(buf.len())
+    }
+    fn flush(&mut self) -> std::io::Result<()> {
+        Ok(())
+    }
+}
+
+impl Terminal for LoopTerm {
+    fn execute(&mut self, cmd: TerminalCommand) -> Result<(), Error> {
+        if !matches!(cmd, TerminalCommand::DecModeSet { .. }) {
+            self.screen.apply(&cmd);
+        }
+        Ok(())
+    }
+    fn poll(&mut self, _t: Option<std::time::Duration>) -> Result<Option<TerminalEvent>, Error> {
+        self.polls += 1;
+        self.pending = 0;
+        Ok(match self.script.pop_front() {
+            None | Some(LoopEvent::Timeout) => None,
+            Some(LoopEvent::Wake) => Some(TerminalEvent::Wake),
+            Some(LoopEvent::Resize) => Some(TerminalEvent::Resize(self.size)),
+            Some(LoopEvent::Behind) => {
+                self.pending = 40;
+                None
+            }
+        })
+    }
+    fn size(&self) -> Result<TerminalSize, Error> {
+        Ok(self.size)
+    }
+    fn position(&mut self) -> Result<Position, Error> {
+        Ok(Position::origin())
+    }
+    fn waker(&self) -> TerminalWaker {
+        TerminalWaker::new(|| Ok(()))
+    }
+    fn frames_pending(&self) -> usize {
+        self.pending
+    }
+    fn frames_drop(&mut self) {
+        self.pending = 0;
+    }
+    fn dyn_ref(&mut self) -> &mut dyn Terminal {
+        self
+    }
+    fn capabilities(&self) -> &TerminalCaps {
+        &self.caps
+    }
+}
+
+/// Run `prog` through the library's `run_render` (the last step returns Quit). At every handler call after a step
+/// that rendered, and at the end, the screen must equal a from-scratch repaint of the surface that step drew; a step
+/// that returned WaitNoFrame must leave nothing of what it drew in later frames (the loop resets the surface).
+fn loop_program(alpha: &Alphabet, g: &Grid, surfs: &[Vec<u8>], prog: &[LoopStep]) -> Vec<(String, String)> {
+    let base = RecTerm::new(g.h, g.w);
+    let mut term = LoopTerm { size: base.size, caps: TerminalCaps::default(), screen: Screen::new(g.h, g.w), script: Default::default(), pending: 0, polls: 0 };
+    term.script.push_back(LoopEvent::Timeout);
+    for st in &prog[..prog.len() - 1] {
+        term.script.push_back(st.then);
+    }
+    let mut problems: Vec<(String, String)> = vec![];
+    let mut call = 0usize;
+    // surface that the screen must show right now (set by the last step that rendered), if known
+    let mut shown: Option<u32> = None;
+    let shape = |upto: usize| -> String {
+        prog[..upto]
+            .iter()
+            .map(|s| format!("{}{}", match s.action { LoopAction::Wait => "W", LoopAction::WaitNoFrame => "N", LoopAction::Sleep0 => "S" }, match s.then { LoopEvent::Timeout => "t", LoopEvent::Wake => "w", LoopEvent::Resize => "r", LoopEvent::Behind => "b" }))
+            .collect::<Vec<_>>()
+            .join("")
+    };
+    let mut judge = |screen: &mut Screen, shown: Option<u32>, upto: usize, problems: &mut Vec<(String, String)>| {
+        if let Some(p) = screen.problems.first().cloned() {
+            problems.push((format!("loop:{}:command:{}", shape(upto), crate::prop::decoder_common::squash(&p)), p));
+            screen.problems.clear();
+        }
+        if let Some(s) = shown {
+            let scratch = from_scratch(alpha, g, &surfs[s as usize]);
+            if let Some((class, detail)) = diff_class(&scratch, screen) {
+                problems.push((
+                    format!("loop:{}:differs-from-repaint:{class}", shape(upto)),
+                    format!("run_render, after handler calls {} (W = Wait, N = WaitNoFrame, S = Sleep(0); then t = timeout, w = wake, r = resize, b = more than 32 frames pending): the screen differs from a from-scratch repaint of the last rendered surface: {detail}", shape(upto)),
+                ));
+            }
+        }
+    };
+    let res = term.run_render(|t: &mut LoopTerm, _event, mut view| -> Result<surf_n_term::TerminalAction<()>, Error> {
+        let st = prog[call];
+        // a resize or a frames-drop clears: what the screen shows until the next rendered frame is not demanded
+        if call > 0 && matches!(prog[call - 1].then, LoopEvent::Resize | LoopEvent::Behind) {
+            shown = None;
+        }
+        if problems.is_empty() {
+            judge(&mut t.screen, shown, call, &mut problems);
+        }
+        t.screen.problems.clear();
+        let surf = &surfs[st.surf as usize];
+        for r in 0..g.h {
+            for c in 0..g.w {
+                let kind = surf[r * g.w + c] as usize;
+                if kind != 0 {
+                    view.set(Position::new(r, c), alpha.cells[kind].clone());
+                }
+            }
+        }
+        call += 1;
+        if call == prog.len() {
+            shown = Some(st.surf);
+            return Ok(surf_n_term::TerminalAction::Quit(()));
+        }
+        Ok(match st.action {
+            LoopAction::Wait => {
+                shown = Some(st.surf);
+                surf_n_term::TerminalAction::Wait
+            }
+            LoopAction::Sleep0 => {
+                shown = Some(st.surf);
+                surf_n_term::TerminalAction::Sleep(std::time::Duration::from_millis(0))
+            }
+            LoopAction::WaitNoFrame => surf_n_term::TerminalAction::WaitNoFrame,
+        })
+    });
+    if let Err(e) = res {
+        problems.push((format!("loop:{}:error", shape(prog.len())), format!("run_render returned {e:?}")));
+    }
+    if problems.is_empty() {
+        judge(&mut term.screen, shown, prog.len(), &mut problems);
+    }
+    problems
+}
+
+fn loop_json(g: &Grid, surfs: &[Vec<u8>], prog: &[LoopStep]) -> Value {
+    json!({
+        "kind": "run_render",
+        "grid": [g.h, g.w],
+        "program": prog.iter().map(|s| json!({"surface": surf_json(g, &surfs[s.surf as usize]), "action": format!("{:?}", s.action), "then": format!("{:?}", s.then)})).collect::<Vec<_>>(),
+    })
+}
+
+/// every program of up to `calls` handler calls over all surfaces of the grid
+fn explore_loop(ctx: &Ctx, alpha: &Alphabet, g: &Grid, calls: usize, viol: &Violations) -> u64 {
+    use rayon::prelude::*;
+    let surfs = surfaces(g);
+    let mut steps: Vec<LoopStep> = vec![];
+    for s in 0..surfs.len() as u32 {
+        for a in LOOP_ACTIONS {
+            for e in LOOP_EVENTS {
+                steps.push(LoopStep { surf: s, action: a, then: e });
+            }
+        }
+    }
+    let count = AtomicU64::new(0);
+    let last: Vec<LoopStep> = (0..surfs.len() as u32).map(|s| LoopStep { surf: s, action: LoopAction::Wait, then: LoopEvent::Timeout }).collect();
+    for n in 1..=calls {
+        // n - 1 free steps, then a final step (only its surface matters)
+        let free = n - 1;
+        let total = steps.len().pow(free as u32);
+        (0..total).into_par_iter().for_each(|mut i| {
+            if ctx.over_cap() {
+                return;
+            }
+            let mut prog = Vec::with_capacity(n);
+            for _ in 0..free {
+                prog.push(steps[i % steps.len()]);
+                i /= steps.len();
+            }
+            for l in &last {
+                prog.push(*l);
+                count.fetch_add(1, Ordering::Relaxed);
+                match catch(|| loop_program(alpha, g, &surfs, &prog)) {
+                    Ok(problems) => {
+                        for (k, d) in problems {
+                            viol.add(k, d, loop_json(g, &surfs, &prog));
+                        }
+                    }
+                    Err(p) => viol.add(format!("loop:{}", p.key()), format!("run_render panicked: {} ({}:{})", p.message, p.file, p.line), loop_json(g, &surfs, &prog)),
+                }
+                prog.pop();
+            }
+        });
+    }
+    count.load(Ordering::Relaxed)
+}
+
 pub fn run(ctx: &Ctx) -> Result<Report, String> {
     let alpha = Alphabet::new();
     let viol = Violations::new();
@@ -689,7 +917,14 @@ pub fn run(ctx: &Ctx) -> Result<Report, String> {
             "not_expanded_violating_or_capped": r.stats.pruned,
         }));
     }
+    // the library's own render loop (`Terminal::run_render`): every program of up to 3 handler calls
+    let loop_grid = Grid { h: 1, w: 2, kinds: vec![0, 2, 3, 7] };
+    let loop_grid2 = Grid { h: 2, w: 2, kinds: vec![0, 7] };
+    let mut loop_programs = explore_loop(ctx, &alpha, &loop_grid, 3, &viol);
+    loop_programs += explore_loop(ctx, &alpha, &loop_grid2, ctx.tier.pick(2, 3), &viol);
+    capped |= ctx.over_cap();
     let mut r = Report::new("model_checking");
+    r.set("run_render_programs", json!({"programs": loop_programs, "what": "programs of up to 3 handler calls (surface x Wait / WaitNoFrame / Sleep(0) x next event timeout / wake / resize / more than 32 frames pending) through Terminal::run_render on a scripted terminal; after every rendered frame the screen must equal a from-scratch repaint", "grids": ["1x2 over blank, a/red, blank/red, img1x1", "2x2 over blank, img1x1"]}));
     r.set("states", states)
         .set("transitions", transitions)
         .set("traces_validated_against_impl", transitions)
@@ -714,6 +949,25 @@ pub fn replay(w: &Value) -> Result<(bool, String), String> {
     let g = Grid { h: gh, w: gw, kinds: (0..KIND_NAMES.len()).collect() };
     let mut surfs: Vec<Vec<u8>> = vec![];
     let mut hist: Vec<Op> = vec![];
+    if w["kind"].as_str() == Some("run_render") {
+        let mut prog = vec![];
+        for st in w["program"].as_array().ok_or("program")? {
+            let mut sf = vec![];
+            for row in st["surface"].as_array().ok_or("surface")? {
+                for cell in row.as_array().ok_or("row")? {
+                    sf.push(KIND_NAMES.iter().position(|n| Some(*n) == cell.as_str()).ok_or("kind")? as u8);
+                }
+            }
+            surfs.push(sf);
+            let action = LOOP_ACTIONS.into_iter().find(|a| Some(format!("{a:?}").as_str()) == st["action"].as_str()).ok_or("action")?;
+            let then = LOOP_EVENTS.into_iter().find(|a| Some(format!("{a:?}").as_str()) == st["then"].as_str()).ok_or("then")?;
+            prog.push(LoopStep { surf: surfs.len() as u32 - 1, action, then });
+        }
+        return Ok(match catch(|| loop_program(&alpha, &g, &surfs, &prog)) {
+            Ok(problems) => (!problems.is_empty(), format!("program {:?}\n{}", prog, problems.iter().map(|(k, d)| format!("  {k}: {d}\n")).collect::<String>())),
+            Err(p) => (true, format!("run_render panicked: {} ({}:{})", p.message, p.file, p.line)),
+        });
+    }
     let parse_surface = |v: &Value| -> Result<Vec<u8>, String> {
         let mut s = vec![];
         for row in v.as_array().ok_or("surface")? {
